@@ -116,6 +116,8 @@ pub fn run(ctx: &mut Ctx) {
         "age_over_256", "age_over_999999999999999999999", "age_over_21x", "age_over_2 1", "ageover_21", "", "AGE_OVER_21",
         "age_over_٢١", "xage_over_21", "age_over", "age_over_21 ", " age_over_21", "age_over_+0", "age_over_00", "age_over_1e1",
         "age_over_0x10", "age_over_++1", "age_over_+-1", "age_over_\u{0}", "age_over_৪",
+        // a multi-byte character across, before and after the end of the prefix (byte offset 9)
+        "age_over＿21", "age_over–21", "age_overé21", "age_over😀21", "age_ove＿_21", "age_ové_21", "age_over_＿21", "age_over_😀", "age_over_2😀", "age_ov😀r_21", "äge_over_21",
     ];
     for id in odd_ids.iter() {
         parse_case(ctx, id);
@@ -138,6 +140,15 @@ pub fn run(ctx: &mut Ctx) {
         let mut h = base.clone();
         h.push((id.to_string(), Value::Bool(false)));
         one_case(ctx, "odd_held_false", "age_over_20", &h);
+    }
+    // many claims at once (21 … 60 of the hundred possible ages), truth values NOT grouped by age: every requested age
+    let n_many = ctx.budget(12, 400);
+    for i in 0..n_many {
+        let k = 21 + (i as usize * 7) % 40;
+        let mut ages: Vec<u32> = (0..100).collect();
+        for j in (1..ages.len()).rev() { let r = ctx.rng.gen_range(0..=j); ages.swap(j, r); }
+        let held: Vec<(String, Value)> = ages[..k].iter().map(|a| (format!("age_over_{a:02}"), Value::Bool(ctx.rng.gen_bool(0.5)))).collect();
+        for nn in 0..100u32 { one_case(ctx, "many_claims", &format!("age_over_{nn:02}"), &held); }
     }
     // random larger sets with unrelated elements, ties (021 / +21 / 21), and non-boolean values
     let n_random = ctx.budget(4000, 200_000);
